@@ -30,7 +30,8 @@ SHADOW_CONTEXTS = ('shadow_nested', 'shadow_async', 'shadow_comp')
 ROUTES = ('global', 'closure', 'attr1', 'attr2', 'method', 'param', 'partial', 'wrapsdeco', 'helper')
 TAINTS_ANY = ('rebind', 'augassign', 'delrebind', 'fortarget', 'withas', 'walrus', 'starunpack', 'nonlocal',
               'importas', 'fromimportas', 'defname', 'classname', 'matchcapture', 'matchstar')
-TAINTS_VK = ('methodcall', 'itemstore', 'handover', 'handoverkw', 'nested_methodcall', 'nested_itemstore')
+TAINTS_VK = ('methodcall', 'itemstore', 'handover', 'handoverkw', 'nested_methodcall', 'nested_itemstore',
+             'nested_handover', 'nested_handoverkw', 'lambda_handover')
 
 
 def star(outer, kind):
@@ -125,6 +126,12 @@ def taint_stmts(prog):
     if kind == 'nested_methodcall':
         # the mutation happens in a helper that runs where the statement stands
         return ['def taint_():', "    %s.pop('q', None)" % name, 'taint_()']
+    if kind == 'nested_handover':
+        return ['def taint_():', '    SINK(%s)' % name, 'taint_()']
+    if kind == 'nested_handoverkw':
+        return ['def taint_():', '    SINK(opts=%s)' % name, 'taint_()']
+    if kind == 'lambda_handover':
+        return ['taint_ = lambda: SINK(%s)' % name, 'taint_()']
     if kind == 'nested_itemstore':
         return ['def taint_():', "    %s['q_'] = 1" % name, "    del %s['q_']" % name, 'taint_()']
     if kind == 'count':
